@@ -577,6 +577,17 @@ pub fn run(cfg: &Config) -> i32 {
                 cases.push((format!("tok/{class}"), Case::Tok { text: t, class: format!("mixed:{class}") }));
             }
         }
+        // a field with empty or blank content, at every position (the occurrence is still a field of the text)
+        for pos in 0..base.len() {
+            for (lab, c) in [("empty-content", ""), ("blank-content", "   ")] {
+                let mut f = base.to_vec();
+                f[pos].content = c.to_string();
+                cases.push((format!("tok/{lab}"), Case::Tok { text: tok::render(&f, false, false), class: lab.to_string() }));
+                if pos % 4 == 0 {
+                    cases.push((format!("split/{lab}"), Case::Split { text: tok::render(&f, false, false), config: format!("MT{}", e.mt) }));
+                }
+            }
+        }
         let muts = mutate::single_mutations(base, &pool, &mut r, false);
         for m in &muts {
             cases.push((format!("tok/mut:{}", m.kind), Case::Tok { text: tok::render(&m.fields, false, false), class: format!("mut:{}", m.kind) }));
